@@ -147,8 +147,13 @@ def h_dmrg_args(V):
             V.check(f'rejects-{name}', True)
 
 
+import contracts.mps_values as MV
+from contracts.mps_values import h_env3_refresh, h_overlap_values, h_mpo_values, h_env3_values, h_env_sum_project_values, h_measure_values
+FUNCTIONS = list(FUNCTIONS) + [f_ for f_ in MV.FUNCTIONS if f_ not in FUNCTIONS]
+
+
 def units(tier):
-    U = []
+    U = MV.units(tier, 'C09')
     th = tier == 'thorough'
     for method in ('1site', '2site'):
         for N in range(2, (8 if th else 5) + 1):
